@@ -88,6 +88,11 @@ class Recorder:
 
 def records_for(pw: t.Sequence[t.Tuple[int, int]], variant: int = 0):
     out = []
+    if variant == 9:
+        # RFC 2782: a target of "." - the record stays a record like any other (priority and weight decide), its target is the empty name
+        for i, (p, w) in enumerate(pw):
+            out.append((p, [0, 1, 2][w], 3890 + i, "." if i % 2 == 0 else f"dc{i}.example.com."))
+        return out
     if variant >= 4:
         # records that name the SAME host several times (absolute / relative / other case / other port): the records stay distinct
         forms = ["dc.example.com.", "dc.example.com", "DC.example.com.", "dc.example.com.", "dc2.example.com."]
@@ -267,6 +272,7 @@ def shards(tier: str, seed: int):
     out.append(["faults"])
     out.append(["envvars"])
     out.append(["additional"])
+    out.append(["bigsets"])
     out.append(["overlap-lookups"])
     for part in range(8):
         out.append(["pairs", part])
@@ -383,6 +389,27 @@ def run_shard(shard, tier, seed, acc) -> None:
     # the host's own names are part of the environment: owned, so that a fallback which consults them behaves the same everywhere
     _socket.getfqdn = lambda *a: "build7.compute.internal"  # type: ignore[assignment]
     _socket.gethostname = lambda: "build7"  # type: ignore[assignment]
+    if shard[0] == "bigsets":
+        # answer sets far larger than a handful (a big domain has dozens of DCs): the single best record at the front, around position 16 / 32 / 64,
+        # and at the very end; and sets in which every second target is "."
+        n = 0
+        for size in (15, 16, 17, 18, 31, 32, 33, 64, 65, 120, 255):
+            for best_at in sorted({0, 1, 14, 15, 16, 17, 31, 32, 63, 64, size // 2, size - 2, size - 1}):
+                if not 0 <= best_at < size:
+                    continue
+                for filler in ((1, 1), (0, 0), (2, 2)):
+                    pw = [filler] * size
+                    pw[best_at] = (0, 2) if filler != (0, 0) else (0, 1)
+                    judge(acc, pw, "example.com", 0)
+                    n += 1
+        for k in (1, 2, 3):
+            for pw in itertools.product(itertools.product(range(3), range(3)), repeat=k):
+                judge(acc, list(pw), "example.com", 9)
+                n += 1
+        acc.ev(n)
+        acc.nt_counted(n)
+        acc.sample({"answer set sizes": [15, 16, 17, 18, 31, 32, 33, 64, 65, 120, 255], "best record at": "front / 14..17 / 31..32 / 63..64 / middle / end", "root targets": "every second target is '.'"})
+        return
     if shard[0] == "additional":
         n = 0
         for k in (1, 2, 3):
